@@ -113,6 +113,10 @@ structure TcpSt where
   accepted : List Nat := []
   out : List Out := []
   closed : Bool := false
+  /-- the loop ended with a CRYPTO_ERROR or REPLAY_ERROR: `drainAfterError` keeps reading (never
+      writing) for a randomised 1–60 s / up to 32 KiB before the connection is closed; every other
+      error closes it at once -/
+  drain : Bool := false
 deriving DecidableEq, Repr
 
 /-- the switch of `StreamUnderlay.RunEventLoop` (server) for a complete, authenticated segment -/
@@ -136,7 +140,7 @@ def headerLen (s : TcpSt) : Nat := if s.recv.isNone then firstReadLen else later
 def tcpAfterOpen (s : TcpSt) (first : Bool) (u : TcpUnit) : TcpSt :=
   if !unmarshalOk u.md then { s with closed := true }                   -- PROTOCOL_ERROR
   else if u.bodyAvail < tcpBodyNeed u.md then { s with closed := true } -- NETWORK_ERROR
-  else if u.md.payloadLen > 0 && !u.payloadOpens then { s with closed := true }   -- CRYPTO_ERROR
+  else if u.md.payloadLen > 0 && !u.payloadOpens then { s with closed := true, drain := true }   -- CRYPTO_ERROR
   else if first && !validNewSession u.md.proto u.md.sid then { s with closed := true } -- PROTOCOL_ERROR
   else tcpDispatch s u.md
 
@@ -150,15 +154,15 @@ def tcpStep (s : TcpSt) (u : TcpUnit) : TcpSt :=
   | none =>
     -- first read: the replay cache is consulted, then discovery over the registered users
     match u.opens with
-    | none => { s with closed := true }               -- CRYPTO_ERROR or REPLAY_ERROR, drain, close
+    | none => { s with closed := true, drain := true }               -- CRYPTO_ERROR or REPLAY_ERROR, drain, close
     | some usr =>
-      if u.dup then { s with recv := some usr, closed := true }   -- REPLAY_ERROR although it decrypts
+      if u.dup then { s with recv := some usr, closed := true, drain := true }   -- REPLAY_ERROR although it decrypts
       else tcpAfterOpen { s with recv := some usr } true u
   | some usr =>
     match u.opens with
-    | none => { s with closed := true }
+    | none => { s with closed := true, drain := true }               -- CRYPTO_ERROR
     | some usr' =>
-      if usr' ≠ usr then { s with closed := true }    -- the implicit-nonce cipher of another key cannot open
+      if usr' ≠ usr then { s with closed := true, drain := true }    -- the implicit-nonce cipher of another key cannot open
       else tcpAfterOpen s false u
 
 def tcpRun (s : TcpSt) (us : List TcpUnit) : TcpSt := us.foldl tcpStep s
